@@ -984,6 +984,9 @@ class Engine:
                 if isinstance(ta, bool) and isinstance(tb, bool):
                     return ta == tb
                 return to_z3(ta) == to_z3(tb)
+        if isinstance(a, Vec) and isinstance(b, Vec) and o == "==" and len(a) == len(b):
+            # element-wise equality; the only use in the subset is under np.all(...)
+            return b_and(*[self.compare(ast.Eq(), x, y) for x, y in zip(a.items, b.items)])
         if isinstance(a, Vec) or isinstance(b, Vec):
             raise OutsideSubset("comparison of arrays")
         if not (is_num(a) and is_num(b)):
